@@ -101,7 +101,7 @@ M = [
     ('short_rows_threshold', ['C18'], (EDG,), "        if len(s) != 4:\n            continue", "        if len(s) < 4:\n            continue"),
     ('comment_after_split', ['C18'], (EDG,), "        p = line.find(comments)\n        if p >= 0:\n            line = line[:p]\n        if not len(line):\n            continue\n        # split line, should have 2 or more", "        if line.lstrip().startswith(comments):\n            continue\n        if not len(line):\n            continue\n        # split line, should have 2 or more"),
     ('compact_reverse', ['C18'], (TRF,), "    tls = sorted(sind_list)", "    tls = sorted(sind_list, reverse=True)"),
-    ('read_ids_len_line', ['C18'], (EDG,), "        if len(s) == 4:\n            if s[-2] not in ['+', '-']:", "        if len(line) == 4:\n            if s[-2] not in ['+', '-']:"),
+    ('read_ids_len_line', ['C18'], (EDG,), "            if len(s) == 4:\n                if s[-2] not in ['+', '-']:", "            if len(line) == 4:\n                if s[-2] not in ['+', '-']:"),
     ('typeerror_becomes_valueerror', ['C18'], (EDG,), '                raise TypeError("Failed to convert timestamp %s to type %s." % (t, nodetype))', '                raise ValueError("Failed to convert timestamp %s to type %s." % (t, nodetype))'),
     ('gzip_extension_not_dispatched', ['C09'], (DEC,), "_dispatch_dict['.gzip'] = _open_gz\n", ""),
     # ---- paths
